@@ -101,6 +101,15 @@ class Lin:
             rng = self.expand(rng)
             if rng[0] == "agg":
                 if rng[2] == "RangeFrom":
+                    st_ = self.expand(rng[3][0])
+                    if st_[0] == "sym" and isinstance(st_[1], tuple) and st_[1][0] == "call" and st_[1][1].split("::")[-1] == "min":
+                        # x[min(len(x), a)..]: len(x) - min(len(x), a) == len(x).saturating_sub(a)
+                        margs = [a_ for a_ in st_[1][2] if not (isinstance(a_, tuple) and a_ and a_[0] == "targs")]
+                        bl = self.len_of(base)
+                        if len(margs) == 2 and len(bl[0]) == 1 and bl[1] == 0 and list(bl[0].values()) == [1]:
+                            for (m0, m1) in ((margs[0], margs[1]), (margs[1], margs[0])):
+                                if self.of_value(m0) == bl:
+                                    return atom(("call", "usize::saturating_sub", (("sym", list(bl[0])[0]), m1)))
                     return lin_add(self.len_of(base), self.of_value(rng[3][0]), -1)
                 if rng[2] == "Range":
                     return lin_add(self.of_value(rng[3][1]), self.of_value(rng[3][0]), -1)
